@@ -266,6 +266,9 @@ print(json.dumps(out))
                 chk.violation(f"registry:{st['op']}:{st['form']}", f"registry access {st['op']}({st['name']}, {st['form']}) gave object #{g[0]} named {g[1]!r}; "
                               f"spec: object #{st['res']} named {st['name']!r}", {"sequence": [{k: s[k] for k in ('op', 'name', 'form', 'res')} for s in b], "got": got})
                 break
+    from . import x_patchmanager
+    x_patchmanager.run(chk, quick, rnd)
+    chk.extra["extensions"] = ["PatchManager.tla: passlib.ext.django._PatchManager (beyond the listed properties)"]
     chk.assumptions += ["host dependent: the htpasswd and host contexts contain whatever crypt() supports on this host; schemes without a usable backend "
                         "(argon2 here) contribute no hashes", "handler.identify() is the source of the extracted claim matrix"]
 
